@@ -3,9 +3,11 @@
    Exact arithmetic over Qc; the linear solver, the interpolation routines of scipy, the observation map
    and the PDE form are parameters (Section variables).  For running, they are instantiated at the end of
    this file by: an affine family of PDE forms / a tabulated form; an exactly computable stand-in solver or
-   the table of the calls the real solver answered (certificate, law checked); the table of the calls scipy's
-   interpolation answered (certificate, node-exactness checked).  No proofs here. *)
-From CV Require Import Base.Tac Base.LinAlg Base.Cmp Base.QcLin.
+   the table of the calls the real solver answered (certificate, law checked); the interpolation routines
+   themselves (interp1_quad, interp2_cubic: exact interpolating splines, Model/C18_Spline.v) -- the table of the
+   calls scipy's interpolation answered is no longer an input of the run, it is COMPARED with the in-model
+   routines entry by entry (i1_model_ok, i2_model_ok) besides the node-exactness law.  No proofs here. *)
+From CV Require Import Base.Tac Base.LinAlg Base.Cmp Base.QcLin Model.C18_Spline.
 From Coq Require Import QArith Qcanon Qabs.
 
 Definition qv := list Qc.
@@ -465,6 +467,39 @@ Definition i2_law_ok (e : i2entry) : bool :=
                           | _, _ => true end) (seq 0 (length (i2_to e)))) (seq 0 (length (i2_go e)))
   end.
 
+(* ---------------- the interpolation routines INSIDE the model (Model/C18_Spline.v) ---------------- *)
+Definition spl_to_res (r : spl_res) : res qv :=
+  match r with SplOk v => Ok v | SplSingular => Er EValue | SplCheckFailed => Er EOther end.
+(* interp1d(grid_sol, solution, kind='quadratic')(grid_obs): the nodes may come in any order; fewer than 3 nodes, a solution of
+   another length, repeated nodes (singular collocation matrix) and evaluation points outside [min, max] are ValueErrors *)
+Definition interp1_quad (gs sol go : qv) : res qv :=
+  if (length gs <? 3)%nat || negb (length sol =? length gs)%nat || negb (forallb (in_range gs) go) then Er EValue
+  else spl_to_res (spl_interp 2 (quad_knots gs) gs sol go).
+Fixpoint res_all {A} (l : list (res A)) : res (list A) :=
+  match l with
+  | [] => Ok []
+  | Ok a :: r => match res_all r with Ok r' => Ok (a :: r') | Er e => Er e end
+  | Er e :: _ => Er e
+  end.
+(* RectBivariateSpline(grid_sol, time_steps, solution)(grid_obs, time_obs), solution given by its time levels: the constructor
+   wants strictly increasing nodes and times (ValueError), a solution of matching shape (ValueError) and at least 4 of each
+   (fitpack `error`); the call wants non-decreasing evaluation points (ValueError) and evaluates points outside the data
+   rectangle at the nearest boundary.  The value is the tensor-product cubic not-a-knot spline: every level is interpolated at
+   the observation nodes, then every observation node's series at the observation times. *)
+Definition interp2_cubic (gs ts : qv) (sol : list qv) (go to : qv) : res qm :=
+  if negb (strictly_inc gs) || negb (strictly_inc ts) then Er EValue
+  else if negb ((length sol =? length ts)%nat && forallb (fun lv => (length lv =? length gs)%nat) sol) then Er EValue
+  else if (length gs <? 4)%nat || (length ts <? 4)%nat then Er EOther
+  else if negb (nondecreasing go) || negb (nondecreasing to) then Er EValue
+  else
+    let go' := map (clamp_range gs) go in
+    let to' := map (clamp_range ts) to in
+    match res_all (map (fun lv => spl_to_res (spl_interp 3 (cubic_knots gs) gs lv go')) sol) with
+    | Er e => Er e
+    | Ok sp => res_all (map (fun i => spl_to_res (spl_interp 3 (cubic_knots ts) ts (map (fun lv => nthq lv i) sp) to'))
+                           (seq 0 (length go)))
+    end.
+
 (* ---------------- comparisons ---------------- *)
 Definition res_close {A} (cl : A -> A -> bool) (x y : res A) : bool :=
   match x, y with Ok a, Ok b => cl a b | Er e, Er f => err_eqb e f | _, _ => false end.
@@ -492,7 +527,11 @@ Definition arr_close_fl (tol floor : Q) (a b : arr) : bool :=
   | A2 x, A2 y => mrel tol (qmax floor (maxabs2 y)) x y
   | _, _ => false
   end.
-Definition obs_close (tol floor : Q) (a b : bool * arr) : bool := Bool.eqb (fst a) (fst b) && arr_close_fl tol floor (snd a) (snd b).
+(* b = the model's side.  Where the model interpolated (in exact arithmetic, Model/C18_Spline.v) the implementation's answer went
+   through scipy's floating-point spline code: never compared more tightly than 1e-9 *)
+Definition itol (interpolated : bool) (tol : Q) : Q := if interpolated then qmax tol tol9 else tol.
+Definition obs_close (tol floor : Q) (a b : bool * arr) : bool :=
+  Bool.eqb (fst a) (fst b) && arr_close_fl (itol (fst b) tol) floor (snd a) (snd b).
 
 (* ---------------- one run of a time-dependent PDE object through the direct API ---------------- *)
 Inductive td_obs :=
@@ -514,7 +553,7 @@ Definition td_run (c : td_cfg) (par : option qv) : td_obs :=
       | Er e => TSolveErr e
       | Ok (levels, info) =>
           TRun levels info
-               (td_observe (c_quirks c) (omap_fun (c_omap c)) (interp2_of (c_tol c) (c_itbl c))
+               (td_observe (c_quirks c) (omap_fun (c_omap c)) interp2_cubic
                            (init_grids (c_gsol c) (c_gobs c)) (c_times c) tobs levels)
       end
   end.
@@ -528,8 +567,14 @@ Definition td_obs_close (tol otol : Q) (om : omap_code) (a b : td_obs) : bool :=
   | _, _ => false
   end.
 
+(* every call scipy answered during observe() is compared with the in-model routine on the same (float, hence rational)
+   arguments: same exception class, or values within 1e-9 of the largest |solution entry| *)
+Definition i1_model_ok (e : i1entry) : bool :=
+  res_close (vrel tol9 (maxabs (i1_sol e))) (i1_out e) (interp1_quad (i1_gs e) (i1_sol e) (i1_go e)).
+Definition i2_model_ok (e : i2entry) : bool :=
+  res_close (mrel tol9 (maxabs2 (i2_sol e))) (i2_out e) (interp2_cubic (i2_gs e) (i2_ts e) (i2_sol e) (i2_go e) (i2_to e)).
 Definition certificates_ok (ss : solver_spec) (i1 : list i1entry) (i2 : list i2entry) : bool :=
-  solver_table_ok ss && forallb i1_law_ok i1 && forallb i2_law_ok i2.
+  solver_table_ok ss && forallb i1_law_ok i1 && forallb i2_law_ok i2 && forallb i1_model_ok i1 && forallb i2_model_ok i2.
 
 (* observed = what assemble(p); solve(); observe(sol) did on the real object *)
 Definition check_td (c : td_cfg) (p : qv) (observed : td_obs) : bool :=
@@ -544,12 +589,14 @@ Definition td_model_forward (c : td_cfg) (a d : Qc) (prev : option qv) (x : qv) 
   | Ok tobs =>
       model_forward (affine_par2fun a d) (fun o => o)
         (td_forward qv Z (solver_of (c_tol c) (c_solver c)) (form_of (c_form c)) (c_quirks c)
-                    (omap_fun (c_omap c)) (interp2_of (c_tol c) (c_itbl c))
+                    (omap_fun (c_omap c)) interp2_cubic
                     (init_grids (c_gsol c) (c_gobs c)) (c_method c) (c_times c) tobs prev) x
   end.
 Definition check_td_forward (c : td_cfg) (a d : Qc) (prev : option qv) (x : qv) (observed : res arr) : bool :=
-  let floor := match td_run c (Some (affine_par2fun a d x)) with TRun l _ _ => td_floor (c_omap c) l | _ => 0%Q end in
-  res_close (arr_close_fl (c_otol c) floor) observed (td_model_forward c a d prev x) && certificates_ok (c_solver c) [] (c_itbl c).
+  let r := td_run c (Some (affine_par2fun a d x)) in
+  let floor := match r with TRun l _ _ => td_floor (c_omap c) l | _ => 0%Q end in
+  let interpolated := match r with TRun _ _ (Ok (true, _)) => true | _ => false end in
+  res_close (arr_close_fl (itol interpolated (c_otol c)) floor) observed (td_model_forward c a d prev x) && certificates_ok (c_solver c) [] (c_itbl c).
 
 (* ---------------- steady-state runs ---------------- *)
 Inductive ss_obs :=
@@ -565,7 +612,7 @@ Definition ss_run (c : ss_cfg) (assembled : bool) (p : qv) : ss_obs :=
   match ss_solve Z (solver_of (s_tol c) (s_solver c)) s with
   | Er e => SSolveErr e
   | Ok (sol, info) =>
-      SRun sol info (ss_observe (omap_fun (s_omap c)) (interp1_of (s_tol c) (s_itbl c))
+      SRun sol info (ss_observe (omap_fun (s_omap c)) interp1_quad
                                 (init_grids (s_gsol c) (s_gobs c)) sol)
   end.
 Definition ss_obs_close (tol otol : Q) (om : omap_code) (a b : ss_obs) : bool :=
@@ -581,10 +628,12 @@ Definition ss_model_forward (c : ss_cfg) (a d : Qc) (prev : option qv) (x : qv) 
   let s0 := match prev with None => mkSS None | Some q => mkSS (Some (sform_of (s_form c) q)) end in
   model_forward (affine_par2fun a d) (fun o => o)
     (ss_forward qv Z (solver_of (s_tol c) (s_solver c)) (sform_of (s_form c)) (omap_fun (s_omap c))
-                (interp1_of (s_tol c) (s_itbl c)) (init_grids (s_gsol c) (s_gobs c)) s0) x.
+                interp1_quad (init_grids (s_gsol c) (s_gobs c)) s0) x.
 Definition check_ss_forward (c : ss_cfg) (a d : Qc) (prev : option qv) (x : qv) (observed : res arr) : bool :=
-  let floor := match ss_run c true (affine_par2fun a d x) with SRun l _ _ => omap_gain (s_omap c) (length l) (maxabs l) | _ => 0%Q end in
-  res_close (arr_close_fl (s_otol c) floor) observed (ss_model_forward c a d prev x) && certificates_ok (s_solver c) (s_itbl c) [].
+  let r := ss_run c true (affine_par2fun a d x) in
+  let floor := match r with SRun l _ _ => omap_gain (s_omap c) (length l) (maxabs l) | _ => 0%Q end in
+  let interpolated := match r with SRun _ _ (Ok (true, _)) => true | _ => false end in
+  res_close (arr_close_fl (itol interpolated (s_otol c)) floor) observed (ss_model_forward c a d prev x) && certificates_ok (s_solver c) (s_itbl c) [].
 
 (* ---------------- grid bookkeeping: a sequence of setter calls after __init__ ---------------- *)
 Definition check_grids (gs go : grid) (ops : list grid_op) (observed : list bool) : bool :=
@@ -619,6 +668,18 @@ Definition check_td_observe (q : quirks) (gs go : grid) (times : qv) (ta : tobs_
   | Er _ => false
   | Ok tobs =>
       res_close (obs_close otol (td_floor om levels)) observed
-                (td_observe q (omap_fun om) (interp2_of 0%Q itbl) (init_grids gs go) times tobs levels)
-      && forallb i2_law_ok itbl
+                (td_observe q (omap_fun om) interp2_cubic (init_grids gs go) times tobs levels)
+      && forallb i2_law_ok itbl && forallb i2_model_ok itbl
   end.
+
+(* SteadyStateLinearPDE.observe alone, on a solution array handed in by the caller (no solve) *)
+Definition check_ss_observe (gs go : grid) (om : omap_code) (otol : Q) (sol : qv) (observed : res (bool * arr)) : bool :=
+  res_close (obs_close otol (omap_gain om (length sol) (maxabs sol))) observed
+            (ss_observe (omap_fun om) interp1_quad (init_grids gs go) sol).
+
+(* LinearPDE._solve_linear_system on what linalg_solve returned: a value, a tuple with at least one entry (Some), or the EMPTY
+   tuple (None), whose `returned_values[0]` raises IndexError -- the only tuple the code does not accept *)
+Definition solve_ret_py (r : option (sret Z)) : res (qv * option (list Z)) :=
+  match r with None => Er EIndex | Some r => Ok (split_ret r) end.
+Definition check_solve_ret (r : option (sret Z)) (observed : res (qv * option (list Z))) : bool :=
+  res_close (fun a b => qcl_eqb (fst a) (fst b) && info_eqb (snd a) (snd b)) observed (solve_ret_py r).
